@@ -21,23 +21,24 @@ var stats = vlib.NewStats("C03")
 func TestMain(m *testing.M) { vlib.Main(m, stats) }
 
 type limCase struct {
-	Mode      string
-	N         uint64 // 0 = no limit (then the run is short and duration-bound)
-	Conc      int
-	PerTick   int
-	TickMs    int
-	Dist      string
-	BodyUs    int
-	FailEvery int
-	Flags     map[string]string
-	YAML      string
-	Keeps     bool // the trigger keeps requesting until the limit stops it
-	LaterFile bool // file mode: the limit is crossed in a later stage
-	MaxDur    time.Duration
+	Mode              string
+	N                 uint64 // 0 = no limit (then the run is short and duration-bound)
+	Conc              int
+	PerTick           int
+	TickMs            int
+	Dist              string
+	BodyUs            int
+	FailEvery         int
+	Flags             map[string]string
+	YAML              string
+	Keeps             bool // the trigger keeps requesting until the limit stops it
+	LaterFile         bool // file mode: the limit is crossed in a later stage
+	MaxDur            time.Duration
+	FailSetupHandleAt uint64 // iteration id that calls Fail on the scenario-level handle (0 = never)
 }
 
 func (c limCase) desc() string {
-	s := fmt.Sprintf("%s N=%d c=%d per=%d/%dms dist=%s body=%dus failEvery=%d flags=%v", c.Mode, c.N, c.Conc, c.PerTick, c.TickMs, c.Dist, c.BodyUs, c.FailEvery, c.Flags)
+	s := fmt.Sprintf("%s N=%d c=%d per=%d/%dms dist=%s body=%dus failEvery=%d failSetupHandleAt=%d flags=%v", c.Mode, c.N, c.Conc, c.PerTick, c.TickMs, c.Dist, c.BodyUs, c.FailEvery, c.FailSetupHandleAt, c.Flags)
 	if c.YAML != "" {
 		s += " yaml=" + strings.ReplaceAll(c.YAML, "\n", "|")
 	}
@@ -65,6 +66,18 @@ func genCase(t *rapid.T) limCase {
 	c.PerTick = rapid.OneOf(rapid.IntRange(lo, max(lo, n/4+1)), rapid.IntRange(lo, 3*n+2)).Draw(t, "perTick")
 	c.Dist = rapid.SampledFrom([]string{"none", "none", "regular", "random"}).Draw(t, "distribution")
 	c.BodyUs = rapid.SampledFrom([]int{0, 0, 100, 1000, 3000}).Draw(t, "bodyMicros")
+	if c.Mode == "file" && rapid.Bool().Draw(t, "slowBodies") {
+		// iterations that outlive their stage: the next stage's pool starts while they are still running
+		c.BodyUs = 60000
+		if c.N > 40 {
+			c.N = 40
+		}
+	}
+	// rarely, an iteration marks the SETUP handle failed (Errorf on the scenario-level T from inside an
+	// iteration): that must not stop later iterations from being invoked
+	if rapid.IntRange(0, 9).Draw(t, "failSetupHandle") == 0 {
+		c.FailSetupHandleAt = uint64(rapid.IntRange(1, 3).Draw(t, "failSetupHandleAt"))
+	}
 	c.FailEvery = rapid.SampledFrom([]int{0, 0, 2, 7}).Draw(t, "failEvery")
 	c.Flags = map[string]string{}
 	c.Keeps = true
@@ -141,10 +154,22 @@ func TestProp_LimitIsExact(t *testing.T) {
 		var ids []uint64
 		var bad []string
 		var invocations atomic.Uint64
-		scenario := func(*f1testing.T) f1testing.RunFn {
+		scenario := func(st *f1testing.T) f1testing.RunFn {
 			return func(it *f1testing.T) {
 				invocations.Add(1)
+				first := it.Iteration
+				defer func() {
+					// the id an invocation observes is its own for as long as it runs
+					if last := it.Iteration; last != first {
+						mu.Lock()
+						bad = append(bad, fmt.Sprintf("an invocation started as iteration %q and later observed id %q", first, last))
+						mu.Unlock()
+					}
+				}()
 				id, err := strconv.ParseUint(it.Iteration, 10, 64)
+				if c.FailSetupHandleAt != 0 && id == c.FailSetupHandleAt {
+					st.Fail()
+				}
 				mu.Lock()
 				if err != nil {
 					bad = append(bad, it.Iteration)
@@ -189,12 +214,21 @@ func TestProp_LimitIsExact(t *testing.T) {
 		if c.LaterFile {
 			cls = append(cls, "limit-crossed-in-later-stage")
 		}
+		if c.Mode == "file" && c.BodyUs >= 60000 {
+			cls = append(cls, "iterations-outlive-their-stage")
+		}
+		if c.FailSetupHandleAt != 0 {
+			cls = append(cls, "setup-handle-failed-mid-run")
+		}
 		stats.Case("runs", c.desc(), nontrivial, cls, func() any {
 			return map[string]any{"case": c.desc(), "invocations": inv, "elapsed_ms": elapsed.Milliseconds()}
 		})
 
-		if len(bad) > 0 {
-			rt.Fatalf("VERIF-VIOLATION C03: iteration ids that are not numbers: %v (%s)", bad, c.desc())
+		mu.Lock()
+		badCopy := append([]string{}, bad...)
+		mu.Unlock()
+		if len(badCopy) > 0 {
+			rt.Fatalf("VERIF-VIOLATION C03: ids observed inside invocations are not their own distinct numbers: %v (%s)", head2(badCopy, 4), c.desc())
 		}
 		// ids are exactly 1..k, each once
 		for i, id := range got {
@@ -220,6 +254,13 @@ func TestProp_LimitIsExact(t *testing.T) {
 			rt.Fatalf("VERIF-VIOLATION C03: %d invocations but the result reports %d started iterations (%s)", inv, tot, c.desc())
 		}
 	})
+}
+
+func head2(s []string, n int) []string {
+	if n > len(s) {
+		n = len(s)
+	}
+	return s[:n]
 }
 
 func head(s []uint64, n int) []uint64 {
